@@ -49,6 +49,7 @@ import (
 	"net"
 	"net/netip"
 	"os"
+	"reflect"
 	"strconv"
 	"strings"
 	"testing"
@@ -172,7 +173,7 @@ func TestVerifC06Edns(t *testing.T) {
 
 		goFail := ""
 		obsCoq := "None"
-		oulen := 0
+		oulen, oclen := 0, 0
 		var obs *dns.Msg
 		var reply []byte
 		if m != nil {
@@ -188,6 +189,9 @@ func TestVerifC06Edns(t *testing.T) {
 				} else {
 					obsCoq = "(Some (" + tab.absMsg(obs, nil) + "))"
 					oulen = obs.Len()
+					cm := obs.Copy()
+					cm.Compress = true
+					oclen = cm.Len()
 				}
 			}
 		}
@@ -214,7 +218,7 @@ func TestVerifC06Edns(t *testing.T) {
 			}
 		}
 		cfgCoq := fmt.Sprintf("(mk_cfg %s %s %s)", nsidCoq, cookieCoq, ecsCoq)
-		coq := fmt.Sprintf("CaseChain %s %s (%s) %s %s %d %s %d %d", vC06TrName[tr], cfgCoq, qCoq, vC06B(strict), dnCoq, clen, obsCoq, len(reply), oulen)
+		coq := fmt.Sprintf("CaseChain %s %s %s (%s) %s %s %d %s %d %d %d", vC06TrName[tr], cfgCoq, tab.table(), qCoq, vC06B(strict), dnCoq, clen, obsCoq, len(reply), oulen, oclen)
 
 		k := "chain-" + strings.ToLower(vC06TrName[tr]) + "-"
 		switch {
@@ -251,6 +255,9 @@ func TestVerifC06Edns(t *testing.T) {
 			"k": k, "coq": coq, "nontrivial": nontrivial,
 			"desc": map[string]any{"transport": protos[tr], "cfg": ci, "client": client.String(), "query_hex": hex.EncodeToString(raw),
 				"wire_born": strict, "downstream": dn, "reply_hex": hex.EncodeToString(reply), "clen_oracle": clen},
+		}
+		if goFail == "" && tab.bad != "" {
+			goFail = "driver cannot abstract a record: " + tab.bad
 		}
 		if goFail != "" {
 			rec["go_fail"] = goFail
